@@ -19,7 +19,7 @@ STR_DOMAIN = 400000
 
 BOUNDS = {
     'quick': dict(DEPTH=2, DEEP_LENGTHS=[0, 9999, 10000, 10001], DEEP_OPS='fixed operator/compound/index forms only'),
-    'thorough': dict(DEPTH=3, DEEP_LENGTHS=LENGTHS, DEEP_OPS='all'),
+    'thorough': dict(DEPTH=3, DEEP_LENGTHS=[0, 9999, 10000, 10001], DEEP_OPS='fixed operator/compound/index forms only', ALL_OPS_DEPTH=2),
 }
 
 FIXED_OPS = [
@@ -45,7 +45,10 @@ FIXED_OPS = [
 ]
 ARG_TEMPLATES = ['(l)', '(d)', '(s)', '(l, l)', '(s, "a")', '(s, "")', '(l, v => v)', '(l, v => l)', '(d, (k, v) => l)',
                  '(l, (a, b) => a)', '(s, c => c)', '(l, 1)', '(l, 0, 1)', '(d, "0")', '(d, "new", l)', '(l, "")', '(s, "a", "aa")',
-                 '(x)', '(x, "a")', '(x, v => v)']
+                 '(x)', '(x, "a")', '(x, v => v)',
+                 # containers of containers: anything that folds / flattens / joins its elements
+                 '([l, l])', '([l, l, l])', '([s, s])', '([tt, tt])', '([l, l], (a, b) => a + b)', '([[l, l], l])', '([d, d])',
+                 '([l, l], v => v)', '([s, l])']
 AT_CAP_MUTATIONS = {'push(l, 1)': 'l', 'insert(l, 0, 1)': 'l', 'l[0] = 1': 'l', 'l[-1] = 1': 'l', 'l[0] += 1': 'l',
                     'd["new"] = 1': 'd', 'd["0"] = 1': 'd', 'd[0] = 1': 'd', 'd[True] = 1': 'd', 'd["0"] += 1': 'd', 'd["new"] += 1': 'd'}
 
@@ -290,10 +293,11 @@ def main(tier, seed, t0):
     while frontier and depth < b['DEPTH']:
         depth += 1
         tasks = []
-        for n in (LENGTHS if depth == 1 else b['DEEP_LENGTHS']):
+        wide = depth <= b.get('ALL_OPS_DEPTH', 1)      # every discovered statement from every start length
+        for n in (LENGTHS if wide else b['DEEP_LENGTHS']):
             hs = [h for m, h in frontier if m == n]
             k = max(1, len(hs) // 24 + 1)
-            use = ops if (depth == 1 or b['DEEP_OPS'] == 'all') else FIXED_OPS
+            use = ops if (wide or b['DEEP_OPS'] == 'all') else FIXED_OPS
             tasks += [(n, hs[i:i + k], use) for i in range(0, len(hs), k)]
         tasks = runner.rotate(tasks, seed)
         r = runner.run_tasks(work, tasks, selftest=(depth == 1))
